@@ -2,11 +2,15 @@
 Property C09 — Paused means hands-off.
 
 Theorems about the phase model and the ObjectSet controller model for every store, every
-ObjectSet and every third-party schedule.  (ObjectDeployment → revision pause propagation is
-proved on the `osr` model of C08, Package → ObjectDeployment on the C16 model.)
+ObjectSet and every third-party schedule, and — second part of the file — about the
+ObjectDeployment → revision pause propagation (`osr` model of the ObjectDeployment controller's
+pass + the store of `Pko.Model.ArchiveHist`) for all revision lists and all histories.
+(Package → ObjectDeployment: C16 model.)
 -/
 import Pko.Lemmas.ObjectSet
 import Pko.Props.C03
+import Pko.Lemmas.C09Pause
+import Pko.Drv.HistCommon
 
 namespace Pko.Props.C09
 open Pko.Kube Pko.Model.Phase Pko.Model.ObjectSet Pko.Model.Status
@@ -204,5 +208,337 @@ example :
     let r := reconcilePhase cfg ow [] "" [a, b] w
     r.2 = .ok ["a"] ∧ r.1.events.length = 0 := by
   exact ⟨rfl, rfl⟩
+
+end Pko.Props.C09
+
+/-!
+## ObjectDeployment level: the parent's pause reaches every non-archived revision
+
+"Pausing an ObjectDeployment pauses every non-archived revision and keeps them paused while the
+parent is paused; un-pausing releases exactly the revisions the parent paused."
+
+The theorems are about `Pko.Model.Archive.osr` — the model of one pass of
+`objectSetReconciler.Reconcile` (internal/controllers/objectdeployments/objectset_reconciler.go:
+listing, revision-0 gate, pause propagation l.72-93, sub-reconcilers skipped while paused, else the
+archive reconciler) — run on ANY listing, and about the store `Pko.Model.ArchiveHist` that applies
+its writes; both are tied to the Go code by the `odpause` correspondence stream (harness/C08
+executor + harness/C09 generator: the REAL reconciler over real ObjectSet objects).  The monitored
+predicate is `Pko.Model.PauseSpec.Ok`, written from the sentence.
+
+Vocabulary: **marked** = `spec.lifecycleState = Paused` ∧ annotation
+`package-operator.run/paused-by-parent: "true"` (`PauseSpec.Marked`; this is `GetPausedByParent()`
+of internal/adapters/objectset.go — BOTH halves: an annotation on a revision somebody set back to
+Active marks nothing, so a paused parent pauses that revision again).  **gated** = a listed
+revision has not reported `status.revision` yet (objectset_reconciler.go l.43-48 delays every
+action, the pause included, until it has; reading note `gated_pass_does_nothing`).
+-/
+namespace Pko.Props.C09
+open Pko.Model.Archive Pko.Model.ArchiveHist Pko.Model.PauseSpec Pko.Lemmas.C08 Pko.Lemmas.C09Pause
+
+/-- The propagation loop of a PAUSED parent, on any slice of revisions: afterwards every
+non-archived revision is Paused and carries the marker (in memory — the objects it sends). -/
+theorem propagate_pause_marks_all (l : List Rev) :
+    ∀ r ∈ (propagate true l).2, r.archived = false → Marked r := by
+  intro r hr hna
+  rw [propagate_snd] at hr
+  obtain ⟨o, _, rfl⟩ := List.mem_map.mp hr
+  unfold touch at hna ⊢
+  by_cases ha : o.archived = true
+  · simp [ha] at hna
+  · simp only [ha, Bool.false_eq_true, ↓reduceIte] at hna ⊢
+    by_cases hp : o.pausedByParent = true
+    · simp only [hp, bne_self_eq_false, Bool.false_eq_true, ↓reduceIte]
+      exact (pausedByParent_iff o).mp hp
+    · have hp' : o.pausedByParent = false := by simpa using hp
+      simp [hp', Marked]
+
+/-- The propagation loop of an UN-PAUSED parent sends `Active` to exactly the non-archived marked
+revisions of the slice. -/
+theorem propagate_unpause_releases_exactly (l : List Rev) (i : Nat) :
+    Write.activate i ∈ (propagate false l).1 ↔ ∃ r ∈ l, r.id = i ∧ r.archived = false ∧ Marked r := by
+  rw [mem_propagate_false]
+  constructor
+  · rintro ⟨r, hr, hna, hp, he⟩
+    cases he
+    exact ⟨r, hr, rfl, hna, (pausedByParent_iff r).mp hp⟩
+  · rintro ⟨r, hr, rfl, hna, hm⟩
+    exact ⟨r, hr, hna, (pausedByParent_iff r).mpr hm, rfl⟩
+
+/-- **od_pause_marks_all_non_archived** (whole pass + store, ALL listings — any length, order,
+lifecycle states, stale or missing annotations, any limit).  After a pass of a PAUSED
+ObjectDeployment that is not gated: every write it sent is the parent-pause of a non-archived
+revision (nothing is archived, pruned or re-activated), no revision is gone, every non-archived
+revision is Paused and carries the parent's marker in the store, and archived revisions are still
+archived.  Because the listing is arbitrary, this is also "keeps them paused while the parent is
+paused": whatever a third party did to a revision's lifecycleState or annotation between two
+passes, the next pass of the still-paused parent ends with it Paused again. -/
+theorem od_pause_marks_all_non_archived (listing : List Rev) (limit : Option Int) (fin : Bool)
+    (hn : Names listing) (hg : gated listing = false) :
+    let ws := (osr listing true limit fin).1
+    let post := applyWs fin ws listing
+    PausedWrites listing ws ∧ NothingLost listing post ∧ AllMarked listing post ∧
+      ArchivedStay listing post := by
+  intro ws post
+  have hws : ws = (propagate true (sortAsc listing)).1 := by
+    show (osr listing true limit fin).1 = _
+    rw [osr_paused hg]
+  -- every write is the parent-pause of a non-archived, not yet marked revision
+  have hwr : ∀ w ∈ ws, ∃ r ∈ listing, w = .ppause r.id ∧ r.archived = false := by
+    intro w hw
+    rw [hws] at hw
+    obtain ⟨r, hr, hna, _, he⟩ := mem_propagate_true.mp hw
+    exact ⟨r, mem_sortAsc.mp hr, he, hna⟩
+  -- what reaches a non-archived revision
+  have hreach : ∀ r ∈ listing, r.archived = false →
+      (∀ w ∈ ws, w.id = r.id → w = .ppause r.id) ∧ (Marked r ∨ Write.ppause r.id ∈ ws) := by
+    intro r hr hna
+    constructor
+    · intro w hw hid
+      obtain ⟨r', _, he, _⟩ := hwr w hw
+      rw [he] at hid ⊢
+      simp only [Write.id] at hid
+      rw [hid]
+    · by_cases hm : Marked r
+      · exact Or.inl hm
+      · right
+        rw [hws]
+        refine mem_propagate_true.mpr ⟨r, mem_sortAsc.mpr hr, hna, ?_, rfl⟩
+        cases hp : r.pausedByParent
+        · rfl
+        · exact absurd ((pausedByParent_iff r).mp hp) hm
+  -- nothing reaches an archived revision
+  have harch : ∀ r ∈ listing, r.archived = true → applyTo fin ws r = some r := by
+    intro r hr ha
+    apply applyTo_untouched
+    intro w hw hid
+    obtain ⟨r', hr', he, hna'⟩ := hwr w hw
+    rw [he] at hid
+    simp only [Write.id] at hid
+    have : r' = r := id_inj hn hr' hr hid
+    rw [this, ha] at hna'
+    cases hna'
+  refine ⟨hwr, ?_, ?_, ?_⟩
+  · intro r hr
+    cases ha : r.archived
+    · obtain ⟨q, hq, _⟩ := applyTo_ppause (fin := fin) (hreach r hr ha).1 (hreach r hr ha).2
+      exact ⟨q, mem_applyWs.mpr ⟨r, hr, hq⟩, applyTo_id hq⟩
+    · exact ⟨r, mem_applyWs.mpr ⟨r, hr, harch r hr ha⟩, rfl⟩
+  · intro r hr hna q hq hid
+    obtain ⟨q', hq', hm⟩ := applyTo_ppause (fin := fin) (hreach r hr hna).1 (hreach r hr hna).2
+    have := applyTo_of_mem hn hr hq hid
+    rw [hq'] at this
+    cases this
+    exact hm
+  · intro r hr ha q hq hid
+    have := applyTo_of_mem hn hr hq hid
+    rw [harch r hr ha] at this
+    cases this
+    simpa [Rev.archived] using ha
+
+/-- **unpause_releases_exactly_marked** (whole pass + store, ALL listings).  A pass of an
+UN-PAUSED ObjectDeployment that is not gated sets Active exactly the non-archived revisions that
+carry the parent's marker (no other revision is sent `Active`, by the propagation loop or by the
+archive reconciler, and every marked one is); in the store each of them has lost the marker; and a
+revision paused by someone else (Paused, no marker) is not Active afterwards — it stays Paused or
+is archived by the roll-out (C08). -/
+theorem unpause_releases_exactly_marked (listing : List Rev) (limit : Option Int) (fin : Bool)
+    (hn : Names listing) (hg : gated listing = false) :
+    let ws := (osr listing false limit fin).1
+    let post := applyWs fin ws listing
+    ReleasedExactly listing ws ∧ MarkerLost listing post ∧ ForeignPauseKept listing post := by
+  intro ws post
+  obtain ⟨prev, cur, hmem, hws'⟩ := osr_unpaused (limit := limit) (fin := fin) hg
+  have hws : ws = (propagate false (sortAsc listing)).1 ++ (reconcile prev cur limit fin).1 := hws'
+  have hact : ∀ i, Write.activate i ∈ ws ↔ ∃ r ∈ listing, r.id = i ∧ r.archived = false ∧ Marked r := by
+    intro i
+    rw [hws, List.mem_append, propagate_unpause_releases_exactly]
+    constructor
+    · rintro (⟨r, hr, h⟩ | h)
+      · exact ⟨r, mem_sortAsc.mp hr, h⟩
+      · exact absurd h reconcile_no_activate
+    · rintro ⟨r, hr, h⟩
+      exact Or.inl ⟨r, mem_sortAsc.mpr hr, h⟩
+  refine ⟨⟨fun i h => (hact i).mp h, fun r hr hna hm => (hact r.id).mpr ⟨r, hr, rfl, hna, hm⟩⟩, ?_, ?_⟩
+  · -- released revisions lose the marker
+    intro r hr hna hm q hq hid
+    have hq' := applyTo_of_mem hn hr hq hid
+    refine applyTo_marker_lost ?_ (Or.inr ((hact r.id).mpr ⟨r, hr, rfl, hna, hm⟩)) hq'
+    intro w hw hwid i he
+    subst he
+    simp only [Write.id] at hwid
+    rw [hws] at hw
+    rcases List.mem_append.mp hw with hw | hw
+    · obtain ⟨_, _, _, _, he⟩ := mem_propagate_false.mp hw
+      cases he
+    · -- a parent-pause of the archive reconciler needs the annotation on the in-memory object,
+      -- which the propagation loop has just removed from `r`
+      cases cur with
+      | none => simp [reconcile] at hw
+      | some c =>
+        obtain ⟨o, ho, hoid, hop⟩ := reconcile_ppause hw
+        obtain ⟨o0, ho0, rfl⟩ := List.mem_map.mp (hmem o (by simpa using ho))
+        have hid0 : o0.id = r.id := by rw [← (touch_core false).id o0, hoid, hwid]
+        have : o0 = r := id_inj hn (mem_sortAsc.mp ho0) hr hid0
+        subst this
+        have hp : o0.pausedByParent = true := (pausedByParent_iff o0).mpr hm
+        have ha : o0.archived = false := hna
+        simp [touch, ha, hp] at hop
+  · -- a foreign pause is not released
+    intro r hr hl hp q hq hid
+    have hq' := applyTo_of_mem hn hr hq hid
+    refine applyTo_not_activated ?_ (by rw [hl]; simp) hq'
+    intro w hw hwid i he
+    subst he
+    simp only [Write.id] at hwid
+    obtain ⟨r', hr', hid', _, hm'⟩ := (hact i).mp hw
+    have : r' = r := id_inj hn hr' hr (by rw [hid', hwid])
+    subst this
+    rw [hm'.2] at hp
+    cases hp
+
+/-- **pause_model_satisfies_spec**: on every listing whatsoever the model's pass satisfies the
+monitored predicate `PauseSpec.Ok`. -/
+theorem pause_model_satisfies_spec (listing : List Rev) (odPaused : Bool) (limit : Option Int)
+    (fin : Bool) :
+    Ok listing odPaused (osr listing odPaused limit fin).1
+      (applyWs fin (osr listing odPaused limit fin).1 listing) := by
+  intro hn hg
+  cases odPaused
+  · simp only [Bool.false_eq_true, ↓reduceIte]
+    exact unpause_releases_exactly_marked listing limit fin hn hg
+  · simp only [↓reduceIte]
+    obtain ⟨h1, h2, h3, h4⟩ := od_pause_marks_all_non_archived listing limit fin hn hg
+    exact ⟨h1, h2, h3.allPaused, h3.parentPauseMarked, h4⟩
+
+/-- Every pass observed in a history of the model, from any state with unique names, over ANY
+sequence of operations (roll-outs, status reports, third-party edits of lifecycleState and
+annotation, deletions, finished teardowns, pause / un-pause, limit changes): the monitor's verdict
+is `"ok"`.  (monitor-vs-model for the `odpause` stream; `initState_inv` supplies the hypothesis
+for every scenario the driver reads.) -/
+theorem pause_monitor_model_ok (s : State) (ops : List Op) (h : Inv s) :
+    ∀ p ∈ (observe s ops).1, verdict p.pre p.odPaused p.writes p.post = "ok" := by
+  induction ops generalizing s with
+  | nil => intro p hp; cases hp
+  | cons op ops ih =>
+    intro p hp
+    have hnext := ih (step s op) (step_inv op h)
+    cases op with
+    | od =>
+      simp only [observe] at hp
+      rcases List.mem_cons.mp hp with rfl | hp
+      · exact verdict_ok_of_Ok h.1 (pause_model_satisfies_spec s.revs s.odPaused s.limit s.fin)
+      · exact hnext p hp
+    | new _ _ _ _ _ => exact hnext p hp
+    | status _ _ _ _ => exact hnext p hp
+    | edit _ _ _ => exact hnext p hp
+    | del _ => exact hnext p hp
+    | finish _ => exact hnext p hp
+    | pause _ => exact hnext p hp
+    | limit _ => exact hnext p hp
+
+/-- The initial state the driver builds from a scenario has unique names below `next`. -/
+theorem initState_inv (h : Pko.Drv.HistCommon.HistScn) : Inv (Pko.Drv.HistCommon.initState h) := by
+  have hids : ∀ l : List Pko.Drv.HistCommon.JRev,
+      (Pko.Drv.HistCommon.toRevs l).map (·.id) = List.range l.length := by
+    intro l
+    simp only [Pko.Drv.HistCommon.toRevs, List.map_map]
+    have : ((fun r : Rev => r.id) ∘ fun (x : Nat × Pko.Drv.HistCommon.JRev) =>
+        ({ id := x.1, rev := x.2.rev, available := x.2.av, statusPaused := x.2.sp,
+           lc := Pko.Drv.HistCommon.toLc x.2.lc, pbp := x.2.pbp, controllerOf := x.2.co,
+           objects := x.2.obj, hashMatch := x.2.hm, terminating := x.2.dt } : Rev)) = Prod.fst := by
+      funext x; rfl
+    rw [this, List.map_fst_zip]
+    simp
+  have hlen : (Pko.Drv.HistCommon.toRevs h.init).length = h.init.length := by
+    have := congrArg List.length (hids h.init)
+    simpa using this
+  constructor
+  · show ((Pko.Drv.HistCommon.toRevs h.init).map (·.id)).Nodup
+    rw [hids]; exact List.nodup_range
+  · intro r hr
+    show r.id < (Pko.Drv.HistCommon.toRevs h.init).length
+    have : r.id ∈ (Pko.Drv.HistCommon.toRevs h.init).map (·.id) := List.mem_map.mpr ⟨r, hr, rfl⟩
+    rw [hids] at this
+    rw [hlen]
+    exact List.mem_range.mp this
+
+/-- In a history: after any pass of a paused, un-gated ObjectDeployment every non-archived revision
+in the store is Paused and marked — for every reachable state, i.e. whatever third parties did to
+lifecycleState and annotation of any revision at any earlier point. -/
+theorem hist_paused_pass_all_paused (s0 : State) (ops : List Op) (h0 : Inv s0) :
+    let s := run s0 ops
+    s.odPaused = true → gated s.revs = false →
+      ∀ q ∈ (step s .od).revs, q.archived = false → Marked q := by
+  intro s hp hg q hq hna
+  have hinv : Inv s := run_inv ops h0
+  have hspec := od_pause_marks_all_non_archived s.revs s.limit s.fin hinv.1 hg
+  simp only [step, odOut, hp] at hq
+  obtain ⟨r, hr, hrq⟩ := mem_applyWs.mp hq
+  have hid := applyTo_id hrq
+  cases ha : r.archived
+  · exact hspec.2.2.1 r hr ha q hq hid
+  · have := hspec.2.2.2 r hr ha q hq hid
+    simp [Rev.archived, this] at hna
+
+/-- Reading note (not flagged by the monitor): while a listed revision has not reported
+`status.revision`, the pass does nothing at all — a pause of the parent reaches the revisions only
+with the first pass after the number is reported (the ObjectSet controller assigns it in its first
+reconcile). -/
+theorem gated_pass_does_nothing (listing : List Rev) (odPaused : Bool) (limit : Option Int)
+    (fin : Bool) (hg : gated listing = true) : osr listing odPaused limit fin = ([], false) :=
+  osr_gated hg
+
+/-- revision literal for the examples: name, revision, lifecycle, annotation -/
+def rv (id : Nat) (rev : Int) (lc : Lifecycle) (pbp : Bool) (hm : Bool := false) : Rev :=
+  { id := id, rev := rev, available := hm, statusPaused := lc == .paused, lc := lc, pbp := pbp,
+    controllerOf := some [], objects := [id], hashMatch := hm }
+
+/-- Non-vacuity, paused parent: an archived revision, a revision a third party set back to Active
+while the annotation stayed (the interleaving of seed C09-1), a revision paused by someone else,
+one that is marked already, and the current one: the pass re-asserts / takes over the pause of
+1, 2 and 4, leaves 0 and 3 alone, and the hypotheses of `od_pause_marks_all_non_archived` hold. -/
+example :
+    let l := [rv 0 1 .archived false, rv 1 2 .active true, rv 2 3 .paused false, rv 3 4 .paused true,
+              rv 4 5 .active false true]
+    osr l true none true = ([.ppause 1, .ppause 2, .ppause 4], false) ∧ Names l ∧ gated l = false ∧
+    (applyWs true (osr l true none true).1 l).map (fun r => (r.lc, r.pbp)) =
+      [(.archived, false), (.paused, true), (.paused, true), (.paused, true), (.paused, true)] := by
+  decide
+
+/-- Non-vacuity, un-paused parent: only the marked revision 3 is released and loses the marker; the
+foreign pause of 2 stays; the stale annotation on the Active revision 1 marks nothing. -/
+example :
+    let l := [rv 0 1 .archived false, rv 1 2 .active true, rv 2 3 .paused false, rv 3 4 .paused true,
+              rv 4 5 .active false false]
+    osr l false none true = ([.activate 3], false) ∧ Names l ∧ gated l = false ∧
+    (applyWs true (osr l false none true).1 l).map (fun r => (r.lc, r.pbp)) =
+      [(.archived, false), (.active, true), (.paused, false), (.active, false), (.active, false)] := by
+  decide
+
+/-- Reading note: a revision paused by a third party BEFORE the parent is paused is taken over by
+the parent's pause (it gets the marker, `od_pause_marks_all_non_archived`) and is therefore released
+when the parent is un-paused: pause → pass → un-pause → pass ends with revision 0 Active. -/
+theorem foreign_pause_taken_over_witness :
+    let s0 : State := { revs := [rv 0 1 .paused false true], next := 1, hi := 1, odPaused := false,
+                        limit := none, fin := true }
+    (run s0 [.pause true, .od, .pause false, .od]).revs.map (fun r => (r.lc, r.pbp)) = [(.active, false)] := by
+  decide
+
+/-- Reading note (not flagged by the monitor, which calls Paused + annotation "marked" however the
+two came about): an un-paused parent never removes a STALE annotation.  Parent paused → revision
+marked; a third party sets lifecycleState back to Active; the parent is un-paused before its next
+pass: the pass writes nothing and the annotation stays on the Active revision.  When somebody later
+pauses that revision on its own, the annotation makes it look parent-paused and the next pass of the
+(un-paused) parent re-activates it. -/
+theorem stale_marker_releases_later_foreign_pause_witness :
+    let s0 : State := { revs := [rv 0 1 .active false true], next := 1, hi := 1, odPaused := false,
+                        limit := none, fin := true }
+    ((observe s0 [.pause true, .od, .edit 0 (some .active) none, .pause false, .od,
+                  .edit 0 (some .paused) none, .od]).1.map
+        (fun p => (p.pre.map (fun r => (r.lc, r.pbp)), p.writes, p.post.map (fun r => (r.lc, r.pbp)))))
+      = [([(.active, false)], [.ppause 0], [(.paused, true)]),
+         ([(.active, true)], [], [(.active, true)]),
+         ([(.paused, true)], [.activate 0], [(.active, false)])] := by
+  decide
 
 end Pko.Props.C09
